@@ -120,6 +120,7 @@ func main() {
 			}
 		}
 		sigs[d.ID] = map[string]any{"name": fn.Name.Name, "params": params, "results": results, "nfuncs": nfuncs}
+		skipBlock := map[*ast.BlockStmt]bool{}
 		var walk func(n ast.Node, inLit bool)
 		walk = func(n ast.Node, inLit bool) {
 			ast.Inspect(n, func(x ast.Node) bool {
@@ -128,6 +129,37 @@ func main() {
 					if v != n {
 						walk(v.Body, true)
 						return false
+					}
+				case *ast.SelectStmt:
+					skipBlock[v.Body] = true
+				case *ast.SwitchStmt:
+					skipBlock[v.Body] = true
+				case *ast.TypeSwitchStmt:
+					skipBlock[v.Body] = true
+				case *ast.BlockStmt:
+					if skipBlock[v] {
+						return true
+					}
+					for _, st := range v.List {
+						switch st.(type) {
+						case *ast.DeclStmt, *ast.LabeledStmt:
+							continue
+						}
+						inss = append(inss, ins{fset.Position(st.Pos()).Offset, "verif_y(); "})
+					}
+				case *ast.CaseClause:
+					for _, st := range v.Body {
+						if _, ok := st.(*ast.DeclStmt); ok {
+							continue
+						}
+						inss = append(inss, ins{fset.Position(st.Pos()).Offset, "verif_y(); "})
+					}
+				case *ast.CommClause:
+					for _, st := range v.Body {
+						if _, ok := st.(*ast.DeclStmt); ok {
+							continue
+						}
+						inss = append(inss, ins{fset.Position(st.Pos()).Offset, "verif_y(); "})
 					}
 				case *ast.ReturnStmt:
 					line := fset.Position(v.Pos()).Line
@@ -228,6 +260,7 @@ import (
 
 var verif_mark = rt.Mark
 var verif_markg = rt.MarkG
+var verif_y = rt.Yield
 
 func main() {
 	rt.MainMulti(map[string]rt.Config{
